@@ -6,6 +6,7 @@ CONSTANTS
   L = 2
   Dim = 3
   Periodic = TRUE
+  OpenAxes = {}
   Radii = {1, 2}
   MaxN = 3
   M <- Neg2
